@@ -101,7 +101,7 @@ def main():
     try:
         for c in checks:
             cmd = ["./run.sh", c, "quick"] + (["--no-race"] if norace else [])
-            e = dict(ENV, VERIF_REPLAY_DIR="/tmp/seed/replays", VERIF_MUTATE=mut, VERIF_EVIDENCE_DIR="/tmp/seed/evidence")
+            e = dict(ENV, VERIF_REPLAY_DIR="/tmp/seed/replays", VERIF_MUTATE=mut, VERIF_EVIDENCE_DIR="/tmp/seed/evidence", VERIF_BUILD_DIR="/tmp/seed/build-%s" % prop)
             p = subprocess.run(cmd, cwd="/verif", env=e, stdout=subprocess.PIPE, stderr=subprocess.STDOUT, text=True)
             classes = re.findall(r"^\s+\[([^\]]+)\] x(\d+)", p.stdout, re.M)
             meta["checks"][c] = {"exit": p.returncode, "violation_classes": ["%s x%s" % x for x in classes][:12],
